@@ -69,6 +69,9 @@ def run_property(pid, tier, seed, cfg):
             if r.status == 'undecided':
                 report['undecided'].append(f'unit {uname}: {r.reason}')
                 continue
+            unit = getattr(r, 'unit', unit)
+            if getattr(r, 'auto_extracted', None):
+                report.setdefault('auto_extracted', []).extend(r.auto_extracted)
             for o in r.obligations:
                 if pid in owning_props(o, unit):
                     o2 = dict(o)
